@@ -82,7 +82,8 @@ class Wire(object):
             f = self.data[e['m']]['s']
             args = [self.atom(n, bound) for n in e['args']]
             if e['tuple'] or len(args) != 1:
-                return [A('expr'), [A('fmt'), f, [A('tup')] + args]]
+                # positional operands: the model writes the format string from the pieces itself
+                return [A('expr'), [A('fmtp'), wire_pieces(e['pieces'])] + args]
             return [A('expr'), [A('fmt'), f, [A('one'), args[0]]]]
         if k == 'fmtmap':
             f = self.data[e['m']]['s']
